@@ -2176,8 +2176,10 @@ func (c *Conn) readHeader(fr *FrameHeader, res *fasthttp.Response) error {
 				return c.skipFields(fr, b, errDuplicateStatus)
 			}
 
+			// Three digits (RFC 7231 6): "0200" is not a status code, though it
+			// is a number between 100 and 999.
 			n, err := parseUint(hf.ValueBytes())
-			if err != nil || n < 100 || n > 999 {
+			if err != nil || len(hf.ValueBytes()) != 3 || n < 100 || n > 999 {
 				return c.skipFields(fr, b, errInvalidStatus)
 			}
 
@@ -2199,20 +2201,18 @@ func (c *Conn) readHeader(fr *FrameHeader, res *fasthttp.Response) error {
 			return c.skipFields(fr, b, errConnectionSpecific)
 		}
 
-		// Checked like any other field, and then left out: what a 103 says
-		// about itself is not part of the response that follows it.
-		if c.block.interim {
-			continue
-		}
-
 		if bytes.Equal(hf.KeyBytes(), StringContentLength) {
 			n, err := parseUint(hf.ValueBytes())
 			if err != nil {
 				return c.skipFields(fr, b, errInvalidContentLength)
 			}
 
-			res.Header.SetContentLength(n)
-		} else {
+			// Checked like any other field, and then left out: what a 103
+			// says about itself is not part of the response that follows it.
+			if !c.block.interim {
+				res.Header.SetContentLength(n)
+			}
+		} else if !c.block.interim {
 			res.Header.AddBytesKV(hf.KeyBytes(), hf.ValueBytes())
 		}
 	}
